@@ -1,16 +1,23 @@
 #!/usr/bin/env bash
 # Runs every stored behaviour-preserving edit against its property's check on a scratch copy: every check must exit 0.
+# tools/harmless_selftest.sh [-j N]   (N edits at a time, default 3)
 HERE="$(cd "$(dirname "${BASH_SOURCE[0]}")/.." && pwd)"
 cd "$HERE"
-FAIL=0
-for d in harmless/*/; do
-  n="$(basename "$d")"; pid="${n%%-*}"
+J=3; [ "${1:-}" = "-j" ] && J="$2"
+one() {
+  d="$1"; n="$(basename "$d")"; pid="${n%%-*}"
   T="$(mktemp -d /tmp/verif-harm.XXXXXX)"
   rsync -a --exclude .git /repo/ "$T/repo/"
-  (cd "$T/repo" && patch -s -p1 < "$HERE/$d/patch.diff") || { echo "$n: patch no longer applies"; rm -rf "$T"; continue; }
+  (cd "$T/repo" && patch -s -p1 < "$HERE/$d/patch.diff") || { echo "$n: patch no longer applies"; rm -rf "$T"; return; }
   VERIF_REPO="$T/repo" VERIF_EVIDENCE_DIR="$T/evidence" VERIF_REPLAY_DIR="$T/replays" ./check "$pid" > "$T/out" 2>&1; rc=$?
-  echo "$n property=$pid check-exit=$rc"
-  [ "$rc" = 0 ] || { FAIL=1; grep -E '^VIOLATION|^UNDECIDED|^CHECKER-ERROR' "$T/out" | sed 's/replay=[^ ]*//' | cut -c1-220 | head -4; }
+  {
+    echo "$n property=$pid check-exit=$rc"
+    [ "$rc" = 0 ] || grep -E '^VIOLATION|^UNDECIDED|^CHECKER-ERROR' "$T/out" | sed 's/replay=[^ ]*//' | cut -c1-220 | head -4 | sed "s/^/    $n: /"
+  } > "$T/line"; cat "$T/line"
   rm -rf "$T"
-done
-exit $FAIL
+}
+export -f one; export HERE
+OUT="$(ls -d harmless/*/ | xargs -P "$J" -I{} bash -c 'one {}')"
+echo "$OUT"
+echo "$OUT" | grep "check-exit=" | grep -qv "check-exit=0$" && exit 1
+exit 0
